@@ -63,6 +63,19 @@ PROPS["C06"] = {
 }
 
 
+C11Q = {"unwind_is_violation": 1, "disksz": 10000, "dirslots": 3, "namecmp": 2, "bbytes": 2, "bblocks": 2, "slots": 1, "fixstable": 1, "zeroalloc": 0, "marked": 0}
+C11T = {"unwind_is_violation": 1, "disksz": 10000, "dirslots": 4, "namecmp": 2, "bbytes": 4, "bblocks": 3, "slots": 3, "longnames": 1, "zeroalloc": 0, "marked": 0}
+PROPS["C11"] = {
+    "unclaimed": True,
+    "level": "model_checking",
+    "explanation": "every NFS/MOUNT procedure of nfs.Nfs executed symbolically on unconstrained arguments from an arbitrary valid file system; a feasible path ending in a Go panic, a >64MB allocation, a re-acquired lock or an exceeded loop bound is a violation",
+    "assumptions": JOURNAL + ["pre-state satisfies the representation invariant Inv (DESIGN.md §4), instantiated at every inode/dirent the path decodes"],
+    "outside": ["transfers of more than B_bytes per partial block / B_blocks blocks", "rfc1057 record marking and the TCP loop", "in-block inode slots other than R_slot in the quick tier"],
+    "harnesses": [H("nfs.VerifC11" + n, covers=(), q=C11Q, t=C11T, lmax=2, budget_s=200, budget_s_t=1500) for n in
+                  ["Getattr", "Write"]],
+}
+
+
 def is_monitor_label(label):
     return label.startswith("mon:")
 
